@@ -164,7 +164,7 @@ def plane_table(ctx):
                'conversions used %s; cell in force after the head: %s' % ([type(b_).__name__ for b_ in used], type(live[0].env.get('box')).__name__ if live else None), node=pn[0], key='cell ' + tag)
 
 
-def _search_eval(ctx, fn, V, normal, maxindex, order=None, hkl=None):
+def _search_eval(ctx, fn, V, normal, maxindex, order=None, hkl=None, numpy_close=False):
     """interpret the two candidate-search loops on a concrete cell; the candidate generator is replaced by an explicit list"""
     # the search section: everything between the candidate generator (a nested def) and the arrangement by cutboxvector
     gen = [k for k, s in enumerate(fn.body) if isinstance(s, ast.FunctionDef)]
@@ -198,7 +198,10 @@ def _search_eval(ctx, fn, V, normal, maxindex, order=None, hkl=None):
         return np.asarray(u, dtype=object).dot(V)
     ev.globals = {'gen_vector': lambda n: list(cands), 'vector_crystal_to_cartesian': v2c, 'vect_angle': angle}
 
-    def isclose(a, b, **k):
+    def isclose(a, b, rtol=sp.Rational(1, 10 ** 5), atol=sp.Rational(1, 10 ** 8), **k):
+        if numpy_close:
+            # concrete numbers, numpy's own test |a - b| <= atol + rtol·|b| (40-digit evaluation): an absolute tolerance on a quantity that carries a length shows at small scales
+            return bool(sp.N(sp.Abs(sp.sympify(a) - sp.sympify(b)), 40) <= sp.N(sp.sympify(atol) + sp.sympify(rtol) * sp.Abs(sp.sympify(b)), 40))
         return bool(sp.simplify(sp.sympify(a) - b) == 0)
 
     def cmp_decide(text, v, p):
@@ -219,6 +222,11 @@ def _search_eval(ctx, fn, V, normal, maxindex, order=None, hkl=None):
     # search runs over lattice vectors of the cell in force), the sign of the normal, the in-plane starting vectors
     env = {'box': 'BOX', 'planenormal': normal, 'maxindex': maxindex, 'hkl': arr(list(hkl)) if hkl is not None else arr([sp.Symbol('h'), sp.Symbol('k'), sp.Symbol('l')]),
            's': sp.Integer(1), 'm': sp.Integer(1), 'conventional_setting': 'SETTING', 'primitive_box': 'BOX'}
+    if numpy_close:
+        # exact arithmetic throughout (no rounding of tiny rationals to "nice" numbers)
+        ev.np_override['numpy.linalg.norm'] = lambda v: sp.sqrt(sp.together(sum(sp.sympify(x) ** 2 for x in np.ravel(np.asarray(v, dtype=object)))))
+        ev.globals['vect_angle'] = lambda a, b: (lambda c: sp.Integer(0) if c == 1 else sp.Integer(180) if c == -1 else sp.acos(c) * 180 / sp.pi)(
+            sp.simplify(np.asarray(a, dtype=object).dot(np.asarray(b, dtype=object)) / sp.sqrt(np.asarray(a, dtype=object).dot(np.asarray(a, dtype=object)) * np.asarray(b, dtype=object).dot(np.asarray(b, dtype=object)))))
     q = ev.block(stmts, [Path(env)])
     live = [p for p in q if p.done is None]
     if len(live) != 1:
@@ -288,6 +296,26 @@ def search(ctx):
             bad.append('non-integer indices')
         ctx.ob('SEARCH', loc, '%s: the vectors found are integer; a and b lie in the plane with a the shortest and b the shortest that makes (a, b, normal) right-handed; c is the reduced lattice vector closest to +normal' % tag,
                not bad, '; '.join(bad)[:300] + ' [a=%s b=%s c=%s]' % (list(a), list(b), list(c)), node=fn, key=tag)
+    # the same cubic cell in other units of length: the vectors found are lattice indices, they do not depend on the unit (closeness tests with numpy's semantics here)
+    eye = np.array(sp.eye(3).tolist(), dtype=object)
+    for pl, nrm_ in (((1, 1, 1), arr([1, 1, 1])), ((2, 1, 0), arr([2, 1, 0]))):
+        ref, bad = None, []
+        for sc in (sp.Integer(1), R(1, 10 ** 4), R(1, 10 ** 10), sp.Integer(10 ** 6)):
+            try:
+                # the plane normal the head computes is a cross product of two lattice vectors: it scales with the square of the unit
+                res = _search_eval(ctx, fn, eye * sc, nrm_ * sc ** 2, 2, None, pl, numpy_close=True)
+                got = None if res is None or any(v is None for v in res[:3]) else [[int(x) for x in v] for v in res[:3]]
+            except WouldRaise as e:
+                got = 'raises: %s' % e
+            except Opaque as e:
+                raise AnalysisError('free_surface_basis search at scale %s: %s' % (sc, e))
+            if ref is None:
+                ref = got
+            elif got != ref:
+                bad.append('lengths x %s: %s' % (sc, got if got is not None else 'a vector is not found (the search is refused)'))
+        n += 1
+        ctx.ob('SEARCH', loc, 'cubic cell, (%s): the same three lattice vectors whatever the unit of length (cell scaled by 1e-4, 1e-10, 1e+6)' % ' '.join(map(str, pl)), ref is not None and not isinstance(ref, str) and not bad,
+               '; '.join(bad)[:300] + ' [at scale 1: %s]' % (ref,), node=fn, key='scale %s' % (pl,))
     ctx.floor('SEARCH', n, 5)
     asserts = [norm(s.test) for s in fn.body if isinstance(s, ast.Assert)]
     ctx.ob('SEARCH', loc, 'a failed search is refused (all three vectors must have been found)', all(x in asserts for x in ('a_uvw is not None', 'c_uvw is not None', 'b_uvw is not None')), str(asserts), node=fn, key='asserts')
